@@ -21,7 +21,7 @@
 #include <module/mem/mem.h>
 
 enum { S_TELL_AB, S_TELL_BA, S_TELL_AA, S_PUB, S_RDY_A, S_RDY_B, S_ADV, NSTEP };
-static const char *STEPN[] = { "tell(A->B)", "tell(B->A)", "tell(A->A)", "publish(A,\"t\")", "make_readable(fdA)", "make_readable(fdB)", "advance(5ms)" };
+static const char *STEPN[] = { "tell(A->B)", "tell(B->A)", "tell(A->A)", "publish(A,'t')", "make_readable(fdA)", "make_readable(fdB)", "advance(5ms)" };
 enum { R_QUIT, R_STOP_SELF, R_STOP_OTHER, R_PAUSE_OTHER, R_ERRNO, R_TELL_OTHER, NREACT };
 static const char *REACTN[] = { "quit(7)", "stop self", "stop other", "pause other", "leave errno=ENOENT", "tell other" };
 typedef struct { int mod, at, act; } react_t;
@@ -35,6 +35,7 @@ static m_mod_t *H[2]; static int UFD[2][2]; static char PAY[8]; static char UPS[
 static mlog_t *LOG; static const prog_t *P; static int nevt[2]; static int quit_req;
 static int step_pos;
 static long n_runs, n_progs, n_viol;
+static prog_t *inflight;      /* shared with the parent: program being executed (crash attribution) */
 
 static void quiet(const m_mod_t *m, const char *f, va_list a) { (void)m; (void)f; (void)a; }
 static bool on_start(m_mod_t *m) { int i = m == H[1]; LOG[i].starts++; return true; }
@@ -132,8 +133,8 @@ static void run_dispatch(const prog_t *p, result_t *r) {
 
 static void fmt_prog(const prog_t *p, char *b, size_t cap) {
     size_t q = 0; q += snprintf(b + q, cap - q, "[");
-    for (int i = 0; i < p->nsteps; i++) q += snprintf(b + q, cap - q, "%s\\\"%s\\\"", i ? "," : "", STEPN[p->steps[i]]);
-    for (int i = 0; i < p->nreact; i++) q += snprintf(b + q, cap - q, ",\\\"reaction: %s at its event #%d: %s\\\"", p->react[i].mod ? "B" : "A", p->react[i].at, REACTN[p->react[i].act]);
+    for (int i = 0; i < p->nsteps; i++) q += snprintf(b + q, cap - q, "%s\"%s\"", i ? "," : "", STEPN[p->steps[i]]);
+    for (int i = 0; i < p->nreact; i++) q += snprintf(b + q, cap - q, "%s\"reaction: %s at its event #%d: %s\"", (i || p->nsteps) ? "," : "", p->react[i].mod ? "B" : "A", p->react[i].at, REACTN[p->react[i].act]);
     snprintf(b + q, cap - q, "]");
 }
 static void prog_hex(const prog_t *p, char *b) {
@@ -155,12 +156,13 @@ static void report(const prog_t *p, const char *rule, const char *sig, const cha
     fflush(stdout); n_viol++;
 }
 static uint64_t outcome_hash(const result_t *r) { uint64_t h = 1469598103934665603ull; for (int i = 0; i < 2; i++) { for (int k = 0; k < r->m[i].n; k++) h = (h ^ r->m[i].ev[k]) * 1099511628211ull; h = (h ^ (r->m[i].stops * 7 + 3)) * 1099511628211ull; } return (h ^ r->ret) * 1099511628211ull; }
-static uint64_t OUT[1 << 16]; static int nout;
-static void note_outcome(uint64_t h) { for (int i = 0; i < nout; i++) if (OUT[i] == h) return; if (nout < (1 << 16)) OUT[nout++] = h; }
+static uint64_t OUTC[1 << 16]; static int nout;
+static void note_outcome(uint64_t h) { for (int i = 0; i < nout; i++) if (OUTC[i] == h) return; if (nout < (1 << 16)) OUTC[nout++] = h; }
 
 static int check_prog(const prog_t *p) {
     result_t L, D; char d[300];
     n_progs++;
+    if (inflight) *inflight = *p;
     run_loop(p, &L); run_dispatch(p, &D); n_runs += 2;
     note_outcome(outcome_hash(&L));
     for (int i = 0; i < 2; i++) {
@@ -181,7 +183,8 @@ static int check_prog(const prog_t *p) {
 }
 
 static int shard_i = 0, shard_n = 1; static double deadline; static int capped;
-static double now(void) { struct timespec t; clock_gettime(CLOCK_MONOTONIC, &t); return t.tv_sec + t.tv_nsec / 1e9; }
+int __real_clock_gettime(clockid_t, struct timespec *);      /* wall clock for deadlines (clock_gettime itself is virtual) */
+static double now(void) { struct timespec t; __real_clock_gettime(CLOCK_MONOTONIC, &t); return t.tv_sec + t.tv_nsec / 1e9; }
 static long prog_ctr;
 static void enum_reacts(prog_t *p, int maxr) {
     /* reactions: none, every single one, every ordered pair on distinct (mod,at) */
@@ -217,7 +220,7 @@ int main(int argc, char **argv) {
     double t0 = now(); deadline = t0 + dl;
     if (replay) { prog_t p; if (parse_prog(replay, &p)) { fprintf(stderr, "bad program\n"); return 2; } int bad = check_prog(&p); printf("REPLAY %s\n", bad ? "VIOLATION" : "ok"); return bad; }
     /* run the enumeration in a child so that a crash is attributed to the program in flight */
-    static prog_t *cur; cur = mmap(NULL, sizeof(prog_t), PROT_READ | PROT_WRITE, MAP_SHARED | MAP_ANONYMOUS, -1, 0);
+    inflight = mmap(NULL, sizeof(prog_t), PROT_READ | PROT_WRITE, MAP_SHARED | MAP_ANONYMOUS, -1, 0);
     fflush(NULL);
     pid_t pid = fork();
     if (pid == 0) {
@@ -227,14 +230,13 @@ int main(int argc, char **argv) {
         enum_steps(&p, 0, N, R);
         char hb[600]; prog_t s = {0}; s.nsteps = 2; s.steps[0] = S_TELL_AB; s.steps[1] = S_RDY_A; s.nreact = 1; s.react[0] = (react_t){1, 1, R_QUIT}; fmt_prog(&s, hb, sizeof hb);
         /* hb is JSON-escaped for embedding in a string; print it as a raw JSON list instead */
-        for (char *c = hb; *c; c++) if (*c == '\\') memmove(c, c + 1, strlen(c));
         printf("STAT {\"harness\":\"c03_loop\",\"config\":\"loop-vs-dispatch steps<=%d reactions<=%d shard %d/%d\",\"states\":%d,\"transitions\":%ld,\"executions\":%ld,\"programs\":%ld,\"distinct_outcomes\":%d,\"violations\":%ld,\"capped\":%d,\"wall_s\":%.2f,\"samples\":[%s]}\n",
                N, R, shard_i, shard_n, nout, n_runs, n_runs, n_progs, nout, n_viol, capped, now() - t0, hb);
         fflush(stdout); _exit(n_viol ? 1 : 0);
     }
     int st; waitpid(pid, &st, 0);
     if (WIFEXITED(st) && WEXITSTATUS(st) <= 1) return WEXITSTATUS(st);
-    printf("VIOL {\"harness\":\"c03_loop\",\"config\":\"loop-vs-dispatch\",\"rule\":\"CR.san\",\"sig\":\"CR.san|c03_loop\",\"detail\":\"crash / sanitizer abort (status %d) during the enumeration of shard %d/%d\",\"probe\":-1,\"hex\":\"\",\"history\":[]}\n", st, shard_i, shard_n);
+    { char d[160]; snprintf(d, sizeof d, "crash / sanitizer abort (wait status %d) while executing this program in one of the two driving modes", st); report(inflight, "CR.san", "CR.san|c03_loop", d); }
     printf("STAT {\"harness\":\"c03_loop\",\"config\":\"crashed\",\"states\":0,\"transitions\":0,\"executions\":0,\"violations\":1,\"capped\":3,\"samples\":[]}\n");
     return 1;
 }
